@@ -742,12 +742,15 @@ class Hypergraph:
             return
         try:
             first_elem = list(first_edge)[0]
-        except TypeError:
+        except (TypeError, IndexError):  # not iterable, or an empty edge
             first_elem = None
 
         format1, format2, format3, format4 = False, False, False, False
         if isinstance(first_elem, Iterable):
-            if all(isinstance(e, str) for e in first_edge):
+            # a set can only be a member set (Format 1), whatever its first element is
+            if isinstance(first_edge, (set, frozenset)) or all(
+                isinstance(e, str) for e in first_edge
+            ):
                 format1 = True
             elif len(first_edge) == 2 and issubclass(type(first_edge[1]), Hashable):
                 format2 = True
